@@ -79,7 +79,7 @@ def attach_histories(recs: list) -> int:
 
 
 def replay(wd, mode: str, recs: list, n_orders: int) -> tuple[dict, list]:
-    if mode in ("dsep", "ci"):
+    if mode in ("dsep", "ci", "sigma"):
         recs = [dict(r) for r in recs]
         attach_histories(recs)
     shards = [recs[i::NSHARDS] for i in range(NSHARDS)]
